@@ -273,8 +273,9 @@ def paxos_jobs(jobs, tier):
         P, "paxos_dev_restart", paxos_consts(maxb=3, quiet=True, dev=["phase2_restart_on_late_promise"]), PAXOS_INVS,
         workers=big))
     # partitioned competing proposers: corrected design, the plausible tie deviation, and the as-code graph
-    jobs.submit("paxos_clean_cut", lambda: mc(P, "paxos_clean_cut", paxos_consts(maxb=3, maxp=3, once=False, **PAXOS_CUT),
-                                              PAXOS_INVS, ["PropStability"], workers=big))
+    cut_kw = dict(maxb=3, maxp=2) if tier == "quick" else dict(maxb=3, maxp=3, once=False)     # 317 / 78 133 states
+    jobs.submit("paxos_clean_cut", lambda: mc(P, "paxos_clean_cut", paxos_consts(**cut_kw, **PAXOS_CUT),
+                                              PAXOS_INVS, ["PropStability"], workers=small if tier == "quick" else big))
     jobs.submit("paxos_dev_adopt_by_ballot_number_only", lambda: mc(
         P, "paxos_dev_adopt", paxos_consts(dev=["adopt_by_ballot_number_only"], **PAXOS_CUT), PAXOS_INVS, workers=small))
     jobs.submit("paxos_tour_cut", lambda: mc(P, "paxos_tour_cut", paxos_consts(maxb=3, dev=open_devs(PAXOS_DEVS), **PAXOS_CUT),
@@ -331,7 +332,8 @@ def run_paxos(chk, jobs, tier, rng, parallel):
     chk.add_tlc("Paxos as-code FairSpec: Progress of the single proposer + state graph", res)
     chk.require(res.ok, f"Paxos.tla as-code single proposer violates {res.violated}")
     res = jobs.result("paxos_clean_cut")
-    chk.add_tlc("Paxos Dev={} (n1,n3 propose up to 3 times at any time, partitioned from each other, ballots<=3)", res)
+    chk.add_tlc("Paxos Dev={} (n1,n3 propose at any time" + (", once each" if tier == "quick" else ", up to 3 proposals") +
+                ", partitioned from each other, same ballot numbers, retries, ballots<=3)", res)
     chk.require(res.ok, f"Paxos.tla with Dev={{}} violates {res.violated} (partitioned proposers)")
     res = jobs.result("paxos_tour_cut")
     chk.add_tlc("Paxos as-code, partitioned competing proposers n1|n3: full state graph (dot)", res, count=False)
